@@ -91,11 +91,11 @@ def main(argv=None):
     known, _fixed = load_known()
     known_keys = {k['key']: k for k in known if k.get('property') == prop}
     errors, violations, known_hits, inconclusive = [], [], [], []
-    tot = dict(paths=0, q_unsat=0, q_sat=0, q_unknown=0, solver_s=0.0, forks=0, aborted=0, val=0, div_sites=0, assumed_feasible=0)
+    tot = dict(paths=0, q_unsat=0, q_sat=0, q_unknown=0, solver_s=0.0, forks=0, aborted=0, val=0, div_sites=0, assumed_feasible=0, cut_unsettled=0)
     proved, covers, files, assumes, samples = {}, {}, set(), set(), []
     soft = {}
     for r in results:
-        for k in ('paths', 'q_unsat', 'q_sat', 'q_unknown', 'solver_s', 'forks', 'aborted', 'div_sites', 'assumed_feasible'):
+        for k in ('paths', 'q_unsat', 'q_sat', 'q_unknown', 'solver_s', 'forks', 'aborted', 'div_sites', 'assumed_feasible', 'cut_unsettled'):
             tot[k] += r.get(k, 0) or 0
         tot['val'] += r.get('translator_validation_cases', 0) or 0
         for k, v in (r.get('proved') or {}).items():
@@ -178,6 +178,7 @@ def main(argv=None):
             'translator_validation_cases': tot['val'],
             'division_sites_cut_at_zero': tot['div_sites'],
             'branch_sides_explored_without_feasibility_verdict': tot['assumed_feasible'],
+            'paths_cut_after_exception_on_unsettled_branch': tot['cut_unsettled'],
             'stubs': sorted({s for h in hs for s in h.stubs}),
             'outside_claim': sorted({s for h in hs for s in h.outside}),
             'inconclusive_fp_obligations': soft,
